@@ -87,6 +87,8 @@ ListGen(ms) == [k |-> "list", msgs |-> ms, pos |-> 0, p |-> 0, done |-> FALSE]
 ZeroCtr == [s \in Streams |-> 0]
 ClosedRun == [open |-> FALSE, ord |-> 0, bundling |-> FALSE, bname |-> "", objs |-> <<>>,
               ctr |-> ZeroCtr, copy |-> ZeroCtr, descs |-> {}, dobjs |-> [s \in Streams |-> {}],
+              mname |-> [d \in Mons |-> ""],      \* monitored device -> name of its event stream (Msg('monitor', obj, name=...))
+              unrep |-> {},                        \* stream names that are never replayed (monitor streams; RunBundler._unreplayed_stream_names)
               dord |-> <<>>,      \* the streams that have a descriptor, in the order of RunBundler._descriptors (a dict)
               mons |-> {}, monsub |-> {}, intr |-> FALSE,
               dcache |-> {}]      \* devices whose describe()/configuration are cached by this run's bundler
@@ -149,11 +151,11 @@ ResetCkpt(s) == IF ~s.cacheOn THEN s
 
 \* RunBundler.rewind: counters := copy, except that streams which are never replayed (interruptions, monitors)
 \* keep their live counters; streams with a prepared descriptor re-seeded at 1; bundle cancelled
-Unreplayed(s) == s = "interruptions" \/ s \in Mons
+UnreplayedIn(r, s) == s = "interruptions" \/ s \in r.unrep
 RewindRun(r) ==
-  LET c == [s \in Streams |-> IF Unreplayed(s) /\ r.ctr[s] # 0 THEN r.ctr[s]
+  LET c == [s \in Streams |-> IF UnreplayedIn(r, s) /\ r.ctr[s] # 0 THEN r.ctr[s]
                                ELSE IF r.copy[s] # 0 THEN r.copy[s] ELSE IF s \in r.descs THEN 1 ELSE 0]
-      cc == [s \in Streams |-> IF r.copy[s] # 0 THEN r.copy[s] ELSE IF s \in r.descs /\ ~(Unreplayed(s) /\ r.ctr[s] # 0) THEN 1 ELSE 0]
+      cc == [s \in Streams |-> IF r.copy[s] # 0 THEN r.copy[s] ELSE IF s \in r.descs /\ ~(UnreplayedIn(r, s) /\ r.ctr[s] # 0) THEN 1 ELSE 0]
   IN [r EXCEPT !.ctr = c, !.copy = cc, !.bundling = FALSE]
 
 \* RunEngine._rewind: returns the state with the cache emptied and (if it was non-empty) every open run rewound
@@ -463,11 +465,12 @@ MonitorUpdate(d) ==
   /\ AtPark /\ d \in Mons
   /\ LET ks == {k \in RunKeys : d \in S.runs[k].monsub} IN
      /\ Cardinality(ks) <= 1
-     /\ S' = [S EXCEPT !.runs = [k \in RunKeys |-> IF k \in ks THEN [S.runs[k] EXCEPT !.ctr[d] = @ + 1] ELSE S.runs[k]]]
+     /\ S' = [S EXCEPT !.runs = [k \in RunKeys |-> IF k \in ks THEN [S.runs[k] EXCEPT !.ctr[S.runs[k].mname[d]] = @ + 1] ELSE S.runs[k]]]
      /\ obs' = ReqObsA("update", d, "", "",
                         <<EvDev(d, "update", "", Cardinality(ks))>>
                         \o (IF ks = {} THEN <<>> ELSE LET k == CHOOSE k \in ks : TRUE
-                                                     IN <<EvDoc("event", d, "", S.runs[k].ctr[d], S.runs[k].ord)>>), "ok")
+                                                         sn == S.runs[k].mname[d]
+                                                     IN <<EvDoc("event", sn, "", S.runs[k].ctr[sn], S.runs[k].ord)>>), "ok")
 
 ----------------------------------------------------------------------------
 (* run task *)
@@ -653,6 +656,14 @@ GroupDone(s, sids) == \A x \in sids : s.stDone[x] # "pending"
 GroupFailed(s, sids) == \E x \in sids : s.stDone[x] = "fail"
 
 \* Exec(d): d = device outcome for commands that call a device ("ok" | "raise" | "fail" | "later"); "ok" otherwise
+\* RunBundler.monitor: the event stream is named by the message (name=...), by default after the device in this harness
+MonName(m) == IF m.a # "" THEN m.a ELSE m.obj
+MonApply(r, m) ==
+  LET sn == MonName(m) IN
+  [r EXCEPT !.mons = @ \cup {m.obj}, !.monsub = @ \cup {m.obj}, !.mname[m.obj] = sn, !.unrep = @ \cup {sn},
+            !.descs = @ \cup {sn}, !.dobjs[sn] = {m.obj}, !.dord = IF sn \in r.descs THEN @ ELSE Append(@, sn),
+            !.ctr[sn] = IF @ = 0 THEN 1 ELSE @]
+
 \* _start_suspender after the devices have been put to rest: rewind, push the helper plan (1275-1309)
 SuspRest(s1) ==
   IF ~s1.cacheOn THEN Done(s1, Exc("Err:TypeError"))      \* len(None) in _rewind
@@ -734,6 +745,19 @@ Exec(d) ==
                     IN /\ S' = Done(SetRun(s0, m.run, [r EXCEPT !.dord = rest \o hit]), Val("seq:2"))
                        /\ obs' = hook \o <<EvDev(m.obj, "configure", "", 0)>>
                                  \o [i \in 1..Len(hit) |-> EvDoc("descriptor", hit[i], "", 0, r.ord)]
+       [] c = "install_suspender" ->
+            \* RunEngine._install_suspender -> install_suspender: as SusInstall, executed by the run task itself
+            /\ d = "ok" /\ m.a \in Suspenders /\ SusGenOK(m.a)
+            /\ S' = Done(SusCallback([s0 EXCEPT !.sus[m.a].inst = TRUE], m.a, s0.sigv[m.a]), Val(None))
+            /\ obs' = hook
+       [] c = "remove_suspender" ->
+            /\ d = "ok" /\ m.a \in Suspenders
+            /\ LET u == s0.sus[m.a]
+                   s1 == IF u.inst THEN [s0 EXCEPT !.sus[m.a] = [u EXCEPT !.inst = FALSE, !.tripped = FALSE, !.ev = 0],
+                                                   !.relq = IF u.ev # 0 THEN @ \cup {SusFuts[m.a][u.ev]} ELSE @]
+                         ELSE s0
+               IN S' = Done(s1, Val(None))
+            /\ obs' = hook
        [] c = "drop" ->
             /\ d = "ok"
             /\ IF ~open \/ ~r.bundling THEN S' = Done(s0, IMS) /\ obs' = hook
@@ -792,12 +816,8 @@ Exec(d) ==
             /\ d = "ok"
             /\ IF ~open \/ m.obj \in r.mons THEN S' = Done(s0, IMS) /\ obs' = hook
                ELSE IF m.obj \notin r.dcache THEN S' = Block(s0, "mon_cache", "", {}) /\ obs' = hook
-               ELSE LET have == m.obj \in r.descs
-                        r1 == [r EXCEPT !.mons = @ \cup {m.obj}, !.monsub = @ \cup {m.obj}, !.descs = @ \cup {m.obj},
-                                        !.dobjs[m.obj] = {m.obj}, !.dord = IF have THEN @ ELSE Append(@, m.obj),
-                                        !.ctr[m.obj] = IF @ = 0 THEN 1 ELSE @]
-                    IN /\ S' = Done(ResetCkpt(SetRun(s0, m.run, r1)), Val(None))
-                       /\ obs' = hook \o <<EvDoc("descriptor", m.obj, "", 0, r.ord), EvDev(m.obj, "subscribe", "", 0)>>
+               ELSE /\ S' = Done(ResetCkpt(SetRun(s0, m.run, MonApply(r, m))), Val(None))
+                    /\ obs' = hook \o <<EvDoc("descriptor", MonName(m), "", 0, r.ord), EvDev(m.obj, "subscribe", "", 0)>>
        [] c = "unmonitor" ->
             /\ d = "ok"
             /\ IF ~open \/ m.obj \notin r.mons THEN S' = Done(s0, IMS) /\ obs' = hook
@@ -856,12 +876,9 @@ CmdDone ==
        [] S.cmd.kind = "mon_cache" ->
             LET m == S.cur
                 r == S.runs[m.run]
-                r1 == [r EXCEPT !.mons = @ \cup {m.obj}, !.monsub = @ \cup {m.obj}, !.descs = @ \cup {m.obj},
-                                !.dobjs[m.obj] = {m.obj}, !.dcache = @ \cup {m.obj},
-                                !.dord = IF m.obj \in r.descs THEN @ ELSE Append(@, m.obj),
-                                !.ctr[m.obj] = IF @ = 0 THEN 1 ELSE @]
+                r1 == [MonApply(r, m) EXCEPT !.dcache = @ \cup {m.obj}]
             IN /\ S' = Done(ResetCkpt(SetRun(S, m.run, r1)), Val(None))
-               /\ obs' = <<EvDoc("descriptor", m.obj, "", 0, r.ord), EvDev(m.obj, "subscribe", "", 0)>>
+               /\ obs' = <<EvDoc("descriptor", MonName(m), "", 0, r.ord), EvDev(m.obj, "subscribe", "", 0)>>
        [] S.cmd.kind = "ckpt_sleep" ->
             \* deferred pause at a checkpoint: after the 0.5 s sleep, _request_pause_coro(defer=False) inline (2454-2455)
             IF S.st # "running" THEN S' = Done(S, Exc("TransitionError")) /\ obs' = <<>>
